@@ -16,7 +16,7 @@
 //!                  blim ty threads buffer threads2 buffer2): one real loader run (+ a second one with threads2/buffer2);
 //!         files = lists of lines, a line = () (no valid item) | (input target); pcfg = (0 cfg) | (1 (cfg ..));
 //!         tokenizer = (tokens pad prefix suffix padto?)
-//!         output = (1 min_items batches same) | (0) init fails;  batches = lists of items (input target token_ids labels)
+//!         output = (1 min_items batches same table_ok) | (0) init fails;  batches = lists of items (input target token_ids labels)
 use std::collections::hash_map::DefaultHasher;
 use std::collections::HashMap;
 use std::hash::{Hash, Hasher};
@@ -717,7 +717,39 @@ fn apply_once(f: &text_utils::data::preprocessing::PreprocessingFn, input: &str,
     }
 }
 
+/// configurations whose probabilities sit exactly ON a draw of the item's generator (the harness draws them with
+/// the real rand crates): `r > cum_p[idx]` against `>=`, `r < p` against `<=` differ only there
+fn boundary_gen(rng: &mut Rng) -> Val {
+    use rand::{Rng as _, SeedableRng};
+    let seed = rng.below(5000) as u64;
+    let mut real = rand_chacha::ChaCha8Rng::seed_from_u64(seed);
+    let draws: Vec<f64> = (0..6).map(|_| real.random::<f64>()).collect();
+    let text = "ab cd e".to_string();
+    let g = rng.chance(1, 2);
+    let cfg = match rng.below(4) {
+        0 => MCfg::Switch(
+            vec![MCfg::Prefix(false, "p".into()), MCfg::Suffix(false, "s".into())],
+            vec![draws[0], 1.0 - draws[0]],
+        ),
+        1 => {
+            // three alternatives, the second boundary on the draw
+            let a = draws[0] / 2.0;
+            MCfg::Switch(
+                vec![MCfg::Prefix(false, "p".into()), MCfg::Suffix(false, "s".into()), MCfg::None],
+                vec![a, draws[0] - a, 1.0 - draws[0]],
+            )
+        }
+        // delete probability = the draw of the first space (character 2), insert probability = the draw of 'b' (character 1)
+        2 => MCfg::WsCorrupt(false, draws[1], draws[2], g),
+        _ => MCfg::WsCorrupt(false, draws[rng.range(3, 5)], draws[5], g),
+    };
+    Val::L(vec![Val::I(-1), cfg.to_val(), Val::str(&text), Val::str(&text), hl(seed), Val::u(0), marks_val(&HashMap::new())])
+}
+
 fn direct_gen(rng: &mut Rng) -> Val {
+    if rng.chance(1, 12) {
+        return boundary_gen(rng);
+    }
     let cfg = gen_cfg(rng, 3);
     let input = gen_text(rng, 14);
     let target = match rng.below(6) {
@@ -1146,7 +1178,16 @@ fn exact_gen(rng: &mut Rng) -> Val {
     .to_val()
 }
 
-type XBatches = Vec<Vec<(String, String, Vec<u32>, Vec<i32>)>>;
+type XItem = (String, String, Vec<u32>, Vec<i32>);
+type XBatches = Vec<Vec<XItem>>;
+
+fn xitem(it: &TrainItem) -> XItem {
+    let (ids, labels) = match &it.input {
+        text_utils::data::TrainTaskInput::SequenceClassification { token_ids, labels, .. } => (token_ids.clone(), labels.clone()),
+        _ => (vec![], vec![]),
+    };
+    (it.data.verif_input().to_string(), it.data.verif_target().to_string(), ids, labels)
+}
 
 impl C08 {
     fn exact_run(&self, input: &Val) -> Option<(Val, Vec<String>)> {
@@ -1184,6 +1225,9 @@ impl C08 {
         // the process (C09's subject); such configurations are outside this line
         let pipe = std::panic::catch_unwind(|| train_pipeline(s.pipeline(), 512));
         reset_panic_hook();
+        // the table of the oracle line (the pipeline applied single-threaded to every generator position), here only a
+        // cross-check: every delivered item must be one of its entries
+        let mut table: Vec<XItem> = vec![];
         if let Ok(Ok((pipe, _))) = &pipe {
             let seed = s.seed + s.epoch as u64;
             let mut pos = 0usize;
@@ -1196,8 +1240,10 @@ impl C08 {
                     if let Ok(d) = data {
                         let info = TextDataInfo { file_idx, seed: seed + pos as u64, ..Default::default() };
                         let pipe = pipe.clone();
-                        if std::panic::catch_unwind(std::panic::AssertUnwindSafe(move || pipe((d, info)))).is_err() {
-                            return None;
+                        match std::panic::catch_unwind(std::panic::AssertUnwindSafe(move || pipe((d, info)))) {
+                            Err(_) => return None,
+                            Ok(Ok(it)) => table.push(xitem(&it)),
+                            Ok(Err(_)) => (),
                         }
                     }
                     pos += 1;
@@ -1238,13 +1284,7 @@ impl C08 {
                 for (items, t) in batches {
                     let mut b = vec![];
                     for it in &items {
-                        let (ids, labels) = match &it.input {
-                            text_utils::data::TrainTaskInput::SequenceClassification { token_ids, labels, .. } => {
-                                (token_ids.clone(), labels.clone())
-                            }
-                            _ => (vec![], vec![]),
-                        };
-                        b.push((it.data.verif_input().to_string(), it.data.verif_target().to_string(), ids, labels));
+                        b.push(xitem(it));
                     }
                     bs.push(b);
                     tensors.push(format!("{:?}", t));
@@ -1257,6 +1297,7 @@ impl C08 {
                 (Err(()), Err(())) => Val::L(vec![Val::I(0)]),
                 (Ok(a), Ok(b)) => {
                     let same = a == b;
+                    let table_ok = a.1.iter().all(|b| b.iter().all(|it| table.contains(it)));
                     Val::L(vec![
                         Val::I(1),
                         Val::u(a.0.unwrap_or(UNKNOWN_ITEM)),
@@ -1279,6 +1320,7 @@ impl C08 {
                                 .collect(),
                         ),
                         Val::b(same),
+                        Val::b(table_ok),
                     ])
                 }
                 // one run failed to start and the other did not
